@@ -141,7 +141,7 @@ class History(object):
                 depth = len(frames) - 1
                 ops = ['assert', 'assert', 'assert', 'solve', 'solve',
                        'push1', 'push2', 'is_sat', 'is_valid', 'is_unsat',
-                       'reset']
+                       'reset', 'push0', 'pop0']
                 if depth >= 1:
                     ops += ['pop1', 'pop1']
                 if depth >= 2:
@@ -161,6 +161,10 @@ class History(object):
                     # add_assertion): the live assertions, and hence the
                     # symbols a model must cover, are the simplified ones
                     frames[-1].append(B.describe(f.simplify()))
+                    model_valid = False
+                elif op in ('push0', 'pop0'):
+                    # zero levels: a legal no-op
+                    getattr(solver, op[:-1])(0)
                     model_valid = False
                 elif op in ('push1', 'push2'):
                     n = int(op[-1])
